@@ -75,6 +75,23 @@ def closure_parts(ev, st, s, attr):
     """(uninterpolator, interpolator) closures composed by the map stored in `attr`: found by their role in
     the composition lambda x: I(U(x)), whatever the local names."""
     out = st.heap.get((s.text, attr))
+    if isinstance(out, Opaque) and out.cls is not None and out.kind == "new":
+        # the composition may be a small callable object instead of a closure: `def __call__(self, x): return self.I(self.U(x))`
+        call = ev.P.method(out.cls, "__call__")
+        if call is not None and len(call.params) == 2:
+            rets = [n for n in call.node.body if isinstance(n, ast.Return)]
+            body = rets[0].value if len(rets) == 1 else None
+            selfn = call.params[0]
+
+            def fld(e):
+                return e.attr if isinstance(e, ast.Attribute) and isinstance(e.value, ast.Name) and e.value.id == selfn else None
+
+            if isinstance(body, ast.Call) and len(body.args) == 1 and isinstance(body.args[0], ast.Call) and fld(body.func) and fld(body.args[0].func):
+                i = st.heap.get((out.text, fld(body.func)))
+                u = st.heap.get((out.text, fld(body.args[0].func)))
+                if isinstance(u, Closure) and isinstance(i, Closure):
+                    return u, i
+        return None, None
     if not isinstance(out, Closure) or out.env is None:
         return None, None
     body = out.func.node.body if out.func.is_lambda else None
